@@ -55,36 +55,30 @@ def term(line):
     return None
 
 def main():
-    cases, obs, outdir = sys.argv[1:4]
+    """coqcases.py <cases-file> <out-file>: evaluate every case in Coq, write the model's observation lines"""
+    cases, outfile = sys.argv[1:3]
     coqdir = os.environ.get("MSTV_COQDIR") or os.path.join(os.path.dirname(os.path.dirname(os.path.abspath(__file__))), "coq")
-    os.makedirs(outdir, exist_ok=True)
+    outdir = os.path.dirname(os.path.abspath(outfile))
     lines = [l.rstrip("\n") for l in open(cases) if l.strip()]
-    olines = [l.rstrip("\n") for l in open(obs)]
-    items, skipped = [], 0
-    for i, (c, o) in enumerate(zip(lines, olines)):
-        tm = term(c)
-        if tm is None:
-            skipped += 1
-            continue
-        items.append((i, tm, o))
+    terms = [term(c) for c in lines]
+    if any(t is None for t in terms):
+        print(json.dumps({"error": "unsupported case kind for the in-Coq path"})); return
     v = os.path.join(outdir, "cases.v")
     with open(v, "w") as f:
         f.write("From Coq Require Import String.\nFrom MST Require Import Sip Base TreeM Diff Show.\nOpen Scope N_scope.\n")
-        for i, tm, o in items:
-            f.write('Definition c%d : bool := String.eqb (%s) "%s"%%string.\n' % (i, tm, o.replace('"', '""')))
-        f.write("Definition results : list bool := [%s].\n" % "; ".join("c%d" % i for i, _, _ in items))
-        f.write("Eval vm_compute in results.\n")
-    p = subprocess.run(["coqc", "-noglob", "-Q", os.path.join(coqdir, "theories"), "MST", v], stdout=subprocess.PIPE, stderr=subprocess.STDOUT, text=True, timeout=1800)
-    res = {"cases": len(items), "skipped": skipped}
+        for i, tm in enumerate(terms):
+            f.write("Eval vm_compute in (%s).\n" % tm)
+    p = subprocess.run(["coqc", "-noglob", "-Q", os.path.join(coqdir, "theories"), "MST", v], stdout=subprocess.PIPE, stderr=subprocess.STDOUT, text=True, timeout=3000)
+    res = {"cases": len(lines)}
     if p.returncode != 0:
         res["error"] = p.stdout[-1500:]
     else:
-        m = re.search(r"=\s*\[(.*?)\]\s*:\s*list bool", p.stdout, re.S)
-        vals = re.findall(r"true|false", m.group(1)) if m else []
-        res["agree"] = vals.count("true")
-        res["disagree"] = [items[j][0] for j, x in enumerate(vals) if x == "false"]
-        if len(vals) != len(items):
-            res["error"] = "expected %d results, parsed %d" % (len(items), len(vals))
+        outs = re.findall(r'=\s*"(.*?)"(?:%string)?\s*:\s*string', p.stdout, re.S)
+        outs = [re.sub(r"\s*\n\s*", "", o).replace('""', '"') for o in outs]
+        if len(outs) != len(lines):
+            res["error"] = "expected %d results, parsed %d" % (len(lines), len(outs))
+        else:
+            open(outfile, "w").write("\n".join(outs) + "\n")
     for ext in ("vo", "vok", "vos", "glob"):
         try: os.remove(os.path.join(outdir, "cases." + ext))
         except OSError: pass
